@@ -14,6 +14,7 @@ inductive Tok where
   | lit (w : List Char)                       -- a keyword (or `:`), matched literally
   | ws                                        -- `\s+`, printed as one blank
   | word (i : Nat) (nm : Option String)       -- `(?P<nm>\S+)`, group number `i`
+  | num (i : Nat) (nm : Option String)        -- `(?P<nm>\d+)`
 deriving Repr, DecidableEq
 
 inductive Fin where
@@ -22,6 +23,9 @@ inductive Fin where
   | wsEot                                     -- `\s*$`
 deriving Repr, DecidableEq
 
+/-- `\d` as `regexp/syntax` tabulates it -/
+def DG : List (Nat × Nat) := [(48, 57)]
+
 def compile : List Tok → Fin → Re
   | [], .rest i nm => .cat (.group i nm (.star true .any)) .eot
   | [], .eot => .eot
@@ -29,6 +33,7 @@ def compile : List Tok → Fin → Re
   | .lit w :: T, f => Re.strThen (w.map Char.toNat) (compile T f)
   | .ws :: T, f => .cat (.plus true (.cls WS)) (compile T f)
   | .word i nm :: T, f => .cat (.group i nm (.plus true (.cls NS))) (compile T f)
+  | .num i nm :: T, f => .cat (.group i nm (.plus true (.cls DG))) (compile T f)
 
 /-- the whole clause regexp `^…` -/
 def re (T : List Tok) (f : Fin) : Re := .cat .bot (compile T f)
@@ -41,6 +46,8 @@ def render : List Tok → Fin → List (List Char) → List Char → List Char
   | .ws :: T, f, ws, r => ' ' :: render T f ws r
   | .word _ _ :: T, f, w :: ws, r => w ++ render T f ws r
   | .word _ _ :: T, f, [], r => render T f [] r
+  | .num _ _ :: T, f, w :: ws, r => w ++ render T f ws r
+  | .num _ _ :: T, f, [], r => render T f [] r
 
 /-- the capture registers after the match (newest first), the line starting at position `p` -/
 def capsOf : List Tok → Fin → List (List Char) → List Char → Nat → Caps
@@ -50,6 +57,8 @@ def capsOf : List Tok → Fin → List (List Char) → List Char → Nat → Cap
   | .ws :: T, f, ws, r, p => capsOf T f ws r (p + 1)
   | .word i _ :: T, f, w :: ws, r, p => capsOf T f ws r (p + w.length) ++ [(i, (p, p + w.length))]
   | .word _ _ :: T, f, [], r, p => capsOf T f [] r p
+  | .num i _ :: T, f, w :: ws, r, p => capsOf T f ws r (p + w.length) ++ [(i, (p, p + w.length))]
+  | .num _ _ :: T, f, [], r, p => capsOf T f [] r p
 
 /-- the fields by group number, in the order of `capsOf` -/
 def fieldsOf : List Tok → Fin → List (List Char) → List Char → List (Nat × List Char)
@@ -59,9 +68,12 @@ def fieldsOf : List Tok → Fin → List (List Char) → List Char → List (Nat
   | .ws :: T, f, ws, r => fieldsOf T f ws r
   | .word i _ :: T, f, w :: ws, r => fieldsOf T f ws r ++ [(i, w)]
   | .word _ _ :: T, f, [], r => fieldsOf T f [] r
+  | .num i _ :: T, f, w :: ws, r => fieldsOf T f ws r ++ [(i, w)]
+  | .num _ _ :: T, f, [], r => fieldsOf T f [] r
 
 def isNS (c : Char) : Bool := inRanges NS c.toNat
 def isWS (c : Char) : Bool := inRanges WS c.toNat
+def isDG (c : Char) : Bool := inRanges DG c.toNat
 
 /-- the first character of what follows a token is not white space (or nothing follows) -/
 def headNotWS : List Char → Bool
@@ -84,6 +96,8 @@ def Ok : List Tok → Fin → List (List Char) → List Char → Bool
   | .ws :: T, f, ws, r => headNotWS (render T f ws r) && Ok T f ws r
   | .word _ _ :: T, f, w :: ws, r => !w.isEmpty && w.all isNS && afterWord T f && Ok T f ws r
   | .word _ _ :: _, _, [], _ => false
+  | .num _ _ :: T, f, w :: ws, r => !w.isEmpty && w.all isDG && afterWord T f && Ok T f ws r
+  | .num _ _ :: _, _, [], _ => false
 
 end Shk.Tpl
 
@@ -97,6 +111,7 @@ def groupsOf : List Tok → Fin → List Nat
   | .lit _ :: T, f => groupsOf T f
   | .ws :: T, f => groupsOf T f
   | .word i _ :: T, f => groupsOf T f ++ [i]
+  | .num i _ :: T, f => groupsOf T f ++ [i]
 
 /-- the piece `s[a..b)` -/
 def slice (s : List Char) (a b : Nat) : List Char := (s.drop a).take (b - a)
@@ -119,7 +134,8 @@ def decompile : Re → Option (List Tok × Fin)
   | .cat (.plus true (.cls ws)) K =>
     if ws = WS then (decompile K).map fun p => (.ws :: p.1, p.2) else none
   | .cat (.group i nm (.plus true (.cls ns))) K =>
-    if ns = NS then (decompile K).map fun p => (.word i nm :: p.1, p.2) else none
+    if ns = NS then (decompile K).map fun p => (.word i nm :: p.1, p.2)
+    else if ns = DG then (decompile K).map fun p => (.num i nm :: p.1, p.2) else none
   | .cat (.chr c) K =>
     if (Char.ofNat c).toNat = c then (decompile K).map (consLit (Char.ofNat c)) else none
   | _ => none
